@@ -1007,6 +1007,19 @@ pub fn candidates(spec: &Spec, k: usize, r: &mut Rng, random_extra: usize) -> Ve
                     out.push(Candidate { content: render(spec, k, &over, &default_counts), component: comp_label.clone(), class: format!("no-integer-part={v}") });
                 }
             }
+            // integers without the comma at and just below the maximum length; many decimals (rates); whatever the
+            // library takes of these must survive its own serialisation (C02 / C08)
+            if matches!(c.name.as_str(), "amount" | "rate") {
+                for (lab, v) in [
+                    ("no-comma,len=max", "9".repeat(c.max)),
+                    ("no-comma,len=max-1", "8".repeat(c.max.saturating_sub(1).max(1))),
+                    ("many-decimals,len=max", format!("0,{}", "9259259123456789".chars().take(c.max.saturating_sub(2)).collect::<String>())),
+                    ("seven-decimals", "1,2345678".to_string()),
+                ] {
+                    let over = |l2: usize, c2: usize, rep: usize| if l2 == li && c2 == ci && rep == 0 { Some(format!("{}{}", c.lit, v)) } else { None };
+                    out.push(Candidate { content: render(spec, k, &over, &default_counts), component: comp_label.clone(), class: lab.to_string() });
+                }
+            }
             // zero amounts / rates
             if matches!(c.name.as_str(), "amount" | "rate") {
                 for z in ["0,", "0,00"] {
